@@ -1,5 +1,5 @@
 PROPS["C03"] = dict(
-    jobs=[job("alu", "c03_alu", cases={Q: 125000, T: 8000000})],
+    jobs=[job("alu", "c03_alu", cases={Q: 125000, T: 12500000})],
     rule="one real interpreter step per case against the independent 40-bit ALU model (models/alu40.h): encodings of "
          "alm/alm_r6/alu {or,and,xor,add,sub,cmp,addh,addl,subh,subl,cmpu} in every operand form, moda4/moda3 "
          "{inc,dec,neg,rnd,copy,not,clr,clrr} under all 16 conditions, add/sub/cmp extra forms, or_/and_ three-operand, "
@@ -9,18 +9,18 @@ PROPS["C03"] = dict(
          "every other register field and the data-memory access log are compared. distinct_nontrivial = distinct "
          "(operand form / operation / event class carry|overflow|saturate-pos|saturate-neg|zero|none|cond-false) executed and compared",
     floors={
-        Q: {"cases": 1900000, "enc": 12000,
+        Q: {"cases": 1900000, "enc": 12086,
             "carry_alm": 50000, "carry_alu": 20000, "carry_moda": 2000, "carry_extra": 10000,
             "overflow_alm": 5000, "overflow_alu": 2000, "overflow_moda": 500, "overflow_extra": 2000,
             "saturated_alm": 20000, "saturated_alu": 10000, "saturated_moda": 5000, "saturated_extra": 10000,
             "cond_false": 20000, "cond_true": 20000, "and_imm8_kept_bits_nonzero": 1000,
             "fvl_stays_latched": 10000, "flm_stays_set": 10000},
-        T: {"cases": 120000000, "enc": 12000,
-            "carry_alm": 3000000, "carry_alu": 1000000, "carry_moda": 100000, "carry_extra": 600000,
-            "overflow_alm": 300000, "overflow_alu": 100000, "overflow_moda": 30000, "overflow_extra": 100000,
-            "saturated_alm": 1000000, "saturated_alu": 600000, "saturated_moda": 300000, "saturated_extra": 600000,
-            "cond_false": 1000000, "cond_true": 1000000, "and_imm8_kept_bits_nonzero": 60000,
-            "fvl_stays_latched": 600000, "flm_stays_set": 600000},
+        T: {"cases": 190000000, "enc": 12086,
+            "carry_alm": 5000000, "carry_alu": 2000000, "carry_moda": 200000, "carry_extra": 1000000,
+            "overflow_alm": 500000, "overflow_alu": 200000, "overflow_moda": 50000, "overflow_extra": 200000,
+            "saturated_alm": 2000000, "saturated_alu": 1000000, "saturated_moda": 500000, "saturated_extra": 1000000,
+            "cond_false": 2000000, "cond_true": 2000000, "and_imm8_kept_bits_nonzero": 100000,
+            "fvl_stays_latched": 1000000, "flm_stays_set": 1000000},
     },
     ready=True,
     technique="runtime monitoring: single-step differential check of the real interpreter against an independent "
